@@ -28,7 +28,10 @@ Record wsdl := mkWsdl {
   w_tns : str;                                  (* targetNamespace of wsdl:definitions *)
   w_prefixes : list (str * str);                (* xmlns:p="uri" declarations of the wsdl root *)
   w_uris : list (str * nsid);                   (* text of every namespace id *)
-  w_names : list (str * name)                   (* text of every interned name *)
+  w_names : list (str * name);                  (* text of every interned name *)
+  w_mixed : list qn;                            (* complex types with simpleContent (extension of a built-in) *)
+  w_all : list qn                               (* the named types in schema.all: merged in from the schema blocks
+                                                   after the first, in merge order (read from the loaded client) *)
 }.
 
 Definition ch_lbrace : N := 123.
@@ -286,6 +289,51 @@ Definition is_builtin_ref (n u : str) : bool :=
 Definition find_gelem (W : wsdl) (q : qn) : option (nsid * name * tref) :=
   find (fun e => qn_eqb (fst (fst e), snd (fst e)) q) (w_elems W).
 
+(* ElementQuery.__deepsearch (the last resort of BlindQuery): SchemaObject.find
+   walks each object of schema.all depth-first with a set of qnames already
+   seen.  Every unnamed node (sequence, choice, all, any, complexContent,
+   extension ...) has the qname (None, tns), so only the FIRST unnamed node
+   under a type is entered: the elements directly in the first top-level
+   container of a type that is no extension are found, nothing below. *)
+(* a local declaration has the qname (name, tns of its schema block); an
+   <element ref=".."/> keeps the qname (None, tns) it was built with and is
+   never matched: it is recognised here by its name living in another namespace
+   (a ref to an element of the same namespace is found as that global element
+   before the deep search starts) *)
+Definition local_match (ns : nsid) (nm : name) (d : edecl) : bool :=
+  N.eqb (e_name d) nm && N.eqb (e_ns d) ns.
+
+Fixpoint direct_named (ns : nsid) (nm : name) (kids : list particle) : option edecl :=
+  match kids with
+  | [] => None
+  | PE d :: r => if local_match ns nm d then Some d else direct_named ns nm r
+  | _ :: r => direct_named ns nm r
+  end.
+
+Fixpoint top_find (ns : nsid) (nm : name) (seen : bool) (ps : list particle) : option edecl :=
+  match ps with
+  | [] => None
+  | PE d :: r => if local_match ns nm d then Some d else top_find ns nm seen r
+  | PAny :: r => top_find ns nm true r
+  | PC _ _ kids :: r =>
+      if seen then top_find ns nm true r
+      else match direct_named ns nm kids with
+           | Some d => Some d
+           | None => top_find ns nm true r
+           end
+  end.
+
+Definition deep_in_type (ns : nsid) (nm : name) (t : ctype) : option edecl :=
+  if N.eqb (c_ns t) ns && negb (N.eqb (c_name t) nm) &&
+     match c_base t with None => true | Some _ => false end
+  then top_find ns nm false (c_content t) else None.
+
+Definition deep_find (W : wsdl) (ns : nsid) (nm : name) : option edecl :=
+  first_some (fun q => match find_type (w_types W) q with
+                       | Some t => deep_in_type ns nm t
+                       | None => None
+                       end) (w_all W).
+
 (* what PathResolver.root + the following resolve(nobuiltin=True) yield *)
 Inductive lres := LNone | LTypeNotFound | LOk (s : sobj).
 
@@ -297,7 +345,18 @@ Definition root_lookup (W : wsdl) (n u : str) : lres :=
       | Some (_, en, ty) =>
           match resolve_elem W en ty with Some s => LOk s | None => LTypeNotFound end
       | None =>
-          match find_named W (ns, nm) with Some s => LOk s | None => LNone end
+          match find_named W (ns, nm) with
+          | Some s => LOk s
+          | None =>
+              match deep_find W ns nm with
+              | Some d =>
+                  match resolve_elem W (e_name d) (e_type d) with
+                  | Some s => LOk s
+                  | None => LTypeNotFound
+                  end
+              | None => LNone
+              end
+          end
       end
   | _, _ => LNone
   end.
@@ -531,11 +590,21 @@ Fixpoint process_all (rec : list hid -> ctype -> keylist) (hist : list hid)
   | it :: r => process_all rec hist r (process_with rec hist data it)
   end.
 
-(* the key list of an object of type t: attributes first, then the children *)
+(* Complex.mixed(): a simpleContent child with content (here: attributes);
+   the object is then a sudsobject.Property, whose constructor sets "value" *)
+Definition is_mixed (t : ctype) : bool :=
+  existsb (qn_eqb (qn_of t)) (w_mixed W) &&
+  match all_items W t with [] => false | _ => true end.
+
+Definition init_data (t : ctype) : keylist :=
+  if is_mixed t then [((n_value, false), PNone)] else [].
+
+(* the key list of an object of type t: ("value" for a Property,) attributes
+   first, then the children *)
 Fixpoint members (fuel : nat) (hist : list hid) (t : ctype) : keylist :=
   match fuel with
-  | O => add_attrs (all_items W t) []
-  | Datatypes.S f => process_all (members f) hist (all_items W t) (add_attrs (all_items W t) [])
+  | O => add_attrs (all_items W t) (init_data t)
+  | Datatypes.S f => process_all (members f) hist (all_items W t) (add_attrs (all_items W t) (init_data t))
   end.
 
 (* every local element declaration of the interface: the recursion depth of
